@@ -332,8 +332,27 @@ class Gen:
   def gen_error(self):
     """Statements that pytype reports on (ordering / dedup material)."""
     r = self.r
-    k = r.randrange(15)
-    if k == 14:
+    k = r.randrange(17)
+    if k == 15:
+      # a TypedDict fed with dicts that lack several keys / have extra ones
+      td, fn = self.fresh("D"), self.fresh("g")
+      keys = r.sample(["name", "year", "director", "rating", "length", "lang", "id"],
+                      r.randrange(3, 7))
+      self.emit("class %s(TypedDict):" % td)
+      for kk in keys:
+        self.emit("  %s: %s" % (kk, r.choice(["str", "int", "float"])))
+      self.emit("def %s(m: %s): pass" % (fn, td))
+      self.emit("%s({%s})" % (fn, ", ".join("'%s': 1" % x for x in r.sample(
+          keys + ["aaa", "bbb", "ccc"], r.randrange(1, 4)))))
+    elif k == 16:
+      # a match that leaves several literal cases out
+      fn = self.fresh("g")
+      lits = r.sample(["aa", "bb", "cc", "dd", "ee", "ff"], r.randrange(3, 6))
+      self.emit("def %s(x: Literal[%s]):" % (fn, ", ".join(repr(x) for x in lits)))
+      self.emit("  match x:")
+      self.emit("    case %r:" % lits[0])
+      self.emit("      return 1")
+    elif k == 14:
       # a directive that lists several names, late in the file on a line of
       # its own: one report entry per name, all for the same line
       names = r.sample(["attribute-error", "name-error", "import-error", "wrong-arg-types",
@@ -727,7 +746,7 @@ class Gen:
   def module(self, size=None):
     r = self.r
     self.emit("import os, sys, math, string")
-    self.emit("from typing import Any, Callable, Dict, Generic, List, Optional, Protocol, Tuple, TypeVar, Union")
+    self.emit("from typing import Any, Callable, Dict, Generic, List, Literal, Optional, Protocol, Tuple, TypedDict, TypeVar, Union")
     self.emit("ANYV: Any = None")
     for up, exports in self.upstream:
       names = sorted(exports.get("consts", []) + exports.get("funcs", []))
